@@ -30,10 +30,10 @@ const maxU24 = 1<<24 - 1
 // ---- session secrets from one real handshake, re-creatable any number of times ----------------------
 
 type secTmpl struct {
-	aes, mac           []byte
-	iEgress, iIngress  []byte // marshalled keccak states of the initiator side
-	rEgress, rIngress  []byte // ... of the receiver side
-	iRemote, rRemote   discover.NodeID
+	aes, mac          []byte
+	iEgress, iIngress []byte // marshalled keccak states of the initiator side
+	rEgress, rIngress []byte // ... of the receiver side
+	iRemote, rRemote  discover.NodeID
 }
 
 func marshalHash(h hash.Hash) []byte {
